@@ -19,6 +19,7 @@ ASSUMPTIONS = ["owner map is built from cr_await/gi_yieldfrom/ag_await and gc re
 MIN_NONTRIVIAL = {"quick": 3000, "thorough": 40000}
 REQUIRED_COUNTERS = {"origin_checked": {"quick": 5000, "thorough": 50000},
                      "running_frames_checked": {"quick": 100, "thorough": 1000},
+                     "recursive_running_targets": {"quick": 50, "thorough": 500},
                      "outermost_error_cases": {"quick": 40, "thorough": 400}}
 SHARD_TIMEOUT = {"quick": 400, "thorough": 5400}
 INTERPS = ["3.12", "3.11", "3.10", "3.9"]
@@ -194,6 +195,45 @@ def worker(spec):
                 ag.aclose().send(None)
             except (StopIteration, StopAsyncIteration):
                 pass
+
+            # recursion: the running target's callees run the *same code object* as the target
+            def rgen(n):
+                if n:
+                    for v in rgen(n - 1):
+                        yield v
+                else:
+                    inspect_self(box[4], "recursive generator (for loop) depth %d" % d, d)
+                    yield 0
+
+            rg = rgen(3)
+            box.append(rg)
+            for _ in rg:
+                pass
+
+            def rgen2(n):
+                if n:
+                    yield from rgen2(n - 1)
+                else:
+                    inspect_self(box[5], "recursive generator (yield from) depth %d" % d, d)
+                    yield 0
+
+            rg2 = rgen2(3)
+            box.append(rg2)
+            for _ in rg2:
+                pass
+
+            async def rco(n):
+                if n:
+                    return await rco(n - 1)
+                inspect_self(box[6], "recursive coroutine depth %d" % d, d)
+
+            rc = rco(3)
+            box.append(rc)
+            try:
+                rc.send(None)
+            except StopIteration:
+                pass
+            res.count("recursive_running_targets", 3)
 
         # blocked thread running a generator in progress
         lock = threading.Lock()
